@@ -218,15 +218,22 @@ def _twin_cache_not_reset():
 
 _SX, _SY, _J = single_leaves("x"), single_leaves("y"), xy_leaves()
 _FULL = [["v", "x"], ["v", "y"]]
+def _andor_family():
+    out = []
+    for (a1, b1) in [(_SX[0], _SY[0]), (_SX[1], _SY[1]), (_SX[0], _J[3])]:
+        for (a2, b2) in [(_SX[1], _SY[0]), (_SY[1], _SX[0]), (_J[0], _SY[1])]:
+            out.append(dict(BASE2, cond=["and", ["or", a1, b1], ["or", a2, b2]], select=_FULL))
+    out.append(dict(BASE2, cond=["and", _J[0], _SX[0]], select=_FULL))
+    out.append(dict(BASE2, cond=["not", ["and", _J[0], _SX[0]]], select=_FULL))
+    out.append(dict(BASE2, cond=["or", ["not", _J[3]], _SY[0]], select=_FULL))
+    out.append(dict(BASE2, cond=["and", _J[0], _J[3]], select=_FULL))
+    out.append(dict(BASE2, cond=["and", _SX[0], _J[3]], select=_FULL))
+    return out
+
+
 TWINS = {
-    "seenset_any_instead_of_all": dict(apply=_twin_seenset_any_instead_of_all,
-                                       specs=lambda t: [dict(BASE2, cond=["and", _J[0], _J[3]], select=_FULL)]),
-    "cached_truth_flag_not_restored": dict(apply=_twin_cached_truth_flag_not_restored,
-                                           specs=lambda t: [dict(BASE2, cond=["and", _J[0], _SX[0]], select=_FULL),
-                                                            dict(BASE2, cond=["not", ["and", _J[0], _SX[0]]], select=_FULL)]),
-    "cache_stores_wrong_truth_flag": dict(apply=_twin_cache_stores_wrong_truth,
-                                          specs=lambda t: [dict(BASE2, cond=["and", ["or", _SX[0], _SY[0]], ["or", _SX[1], _SY[0]]], select=_FULL)]),
-    "coverage_check_ignores_later_keys": dict(apply=_twin_cache_not_reset,
-                                              specs=lambda t: [dict(BASE2, cond=["and", _SX[0], _J[3]], select=_FULL),
-                                                               dict(BASE2, cond=["and", _J[3], _J[4]], select=_FULL)]),
+    "seenset_any_instead_of_all": dict(apply=_twin_seenset_any_instead_of_all, specs=lambda t: _andor_family()),
+    "cached_truth_flag_not_restored": dict(apply=_twin_cached_truth_flag_not_restored, specs=lambda t: _andor_family()),
+    "cache_stores_wrong_truth_flag": dict(apply=_twin_cache_stores_wrong_truth, specs=lambda t: _andor_family()),
+    "coverage_check_ignores_later_keys": dict(apply=_twin_cache_not_reset, specs=lambda t: _andor_family()),
 }
